@@ -148,6 +148,14 @@ def fSegments := "num_segments"
 def boundsFeatures (b : Bounds) : List (String × Rat) :=
   [(fDuration, b.en - b.st), (fLow, b.lo), (fHigh, b.hi), (fBandwidth, b.hi - b.lo)]
 
+/-- the feature functions of the six types that read `geometry_to_shapely(g).bounds`
+    (and `len(geom.geoms)` for the multi-geometries), keyed by type tag like
+    `_COMPUTE_FEATURES` -/
+def shapeFeatures (tag : String) (b : Bounds) (n : Nat) : List (String × Rat) :=
+  if tag = "Point" then [(fDuration, 0), (fLow, b.lo), (fHigh, b.hi), (fBandwidth, 0)]
+  else if tag = "LineString" ∨ tag = "Polygon" then boundsFeatures b
+  else boundsFeatures b ++ [(fSegments, (n : Rat))]
+
 /-- `compute_geometric_features`, one case per entry of `_COMPUTE_FEATURES`;
     `none` only for a geometry without points (never valid) -/
 def features (g : Geom) : Option (List (String × Rat)) :=
@@ -156,11 +164,7 @@ def features (g : Geom) : Option (List (String × Rat)) :=
   | .timeInterval s e => some [(fDuration, e - s)]
   | .boundingBox s l e h =>
       some [(fDuration, e - s), (fLow, l), (fHigh, h), (fBandwidth, h - l)]
-  | .point .. =>
-      (toShape g).bounds.map fun b => [(fDuration, 0), (fLow, b.lo), (fHigh, b.hi), (fBandwidth, 0)]
-  | .lineString _ | .polygon _ => (toShape g).bounds.map boundsFeatures
-  | .multiPoint _ | .multiLineString _ | .multiPolygon _ =>
-      (toShape g).bounds.map fun b => boundsFeatures b ++ [(fSegments, ((toShape g).numParts : Rat))]
+  | _ => (toShape g).bounds.map fun b => shapeFeatures g.tag b (toShape g).numParts
 
 /-- keys of `_COMPUTE_FEATURES` -/
 def featureTypes : List String :=
@@ -260,5 +264,24 @@ structure IsBoundsOf (b : Bounds) (pts : List Pt) : Prop where
   lo_attained : ∃ p ∈ pts, p.2 = b.lo
   en_attained : ∃ p ∈ pts, p.1 = b.en
   hi_attained : ∃ p ∈ pts, p.2 = b.hi
+
+/-- executable form of `IsBoundsOf` (see `isBoundsOfB_iff`) -/
+def isBoundsOfB (b : Bounds) (pts : List Pt) : Bool :=
+  pts.all (fun p => decide (b.st ≤ p.1 ∧ p.1 ≤ b.en ∧ b.lo ≤ p.2 ∧ p.2 ≤ b.hi)) &&
+  pts.any (fun p => decide (p.1 = b.st)) && pts.any (fun p => decide (p.2 = b.lo)) &&
+  pts.any (fun p => decide (p.1 = b.en)) && pts.any (fun p => decide (p.2 = b.hi))
+
+/-- the points the property's "min/max over its coordinates" ranges over: the stored
+    coordinates, a time-only geometry spanning the band `[0, MAXF]` -/
+def specPts (g : Geom) : List Pt := if timeOnly g then g.boundPts else allPts g
+
+/-- executable statement of the bounds clause on an observed result of `compute_bounds` -/
+def boundsHolds (g : Geom) (b : Bounds) : Bool := isBoundsOfB b (specPts g)
+
+/-- executable statement of the features clause on an observed feature list, given the
+    observed bounds of the same geometry -/
+def featuresHolds (g : Geom) (b : Bounds) (fs : List (String × Rat)) : Bool :=
+  decide (fs.map (·.1) = expectedNames g) &&
+  fs.all (fun nv => decide (ofBounds nv.1 b (parts g) = some nv.2))
 
 end SE.Bnd
